@@ -594,9 +594,13 @@ func (c *Context) Sqrt(d, x *Decimal) (Condition, error) {
 	if !res.Inexact() && d.Form == Finite {
 		// When approx happens to have no more than c.Precision significant
 		// digits the rounding above discards nothing, yet the root is exact
-		// only if the square of d is x.
+		// only if the square of d is x. The square is formed on the
+		// coefficient: a multiplication under a context would refuse an
+		// exponent beyond the package limits (the root of 4E-100000 is exact).
 		var sq Decimal
-		if _, err := BaseContext.Mul(&sq, d, d); err != nil || sq.Cmp(&f) != 0 {
+		sq.Coeff.Mul(&d.Coeff, &d.Coeff)
+		sq.Exponent = 2 * d.Exponent
+		if sq.Cmp(&f) != 0 {
 			res |= Inexact | Rounded
 		}
 	}
